@@ -604,6 +604,10 @@ pub fn run(args: &Args) -> ! {
     };
     let total = Mutex::new(Acc::default());
     let next = std::sync::atomic::AtomicUsize::new(0);
+    // once this many discrepancies are on record the verdict is settled; a
+    // broken walker can make every remaining walk very slow (e.g. an
+    // undetected link cycle is followed until the OS refuses)
+    let found = std::sync::atomic::AtomicUsize::new(0);
     // the unhooked parallel walker sleeps 1 ms when idle, so these walks are
     // latency bound: oversubscribe
     let nthreads = ncpu() * 4;
@@ -615,10 +619,13 @@ pub fn run(args: &Args) -> ! {
                 loop {
                     // claim a block of consecutive work items (same tree)
                     let i0 = next.fetch_add(64, std::sync::atomic::Ordering::Relaxed);
-                    if i0 >= work.len() {
+                    if i0 >= work.len() || found.load(std::sync::atomic::Ordering::Relaxed) >= 60 {
                         break;
                     }
                     for i in i0..(i0 + 64).min(work.len()) {
+                    if found.load(std::sync::atomic::Ordering::Relaxed) >= 60 {
+                        break;
+                    }
                     let (ti, ci, rk) = work[i];
                     if cur.as_ref().map(|c| c.0) != Some(ti) {
                         cur = Some((ti, Fixture::new(&trees[ti])));
@@ -670,6 +677,9 @@ pub fn run(args: &Args) -> ! {
                         if (r.errors > 0) != (a.errors > 0) {
                             why.push(format!("errors: reference {} serial {}", r.errors, a.errors));
                         }
+                    }
+                    if !why.is_empty() {
+                        found.fetch_add(1, std::sync::atomic::Ordering::Relaxed);
                     }
                     if !why.is_empty() && acc.disc.len() < 40 {
                         let r = reference(fx, c, &roots);
